@@ -33,19 +33,29 @@ from vlib import core, tools
 from vlib.core import Check, Discard, Inconclusive, Violation
 
 SIG_RELR_PARITY = "alloc:relr-parity-in-1-aligned-section"
+SIG_BUILD_ID = "alloc:build-id-hex-length-not-multiple-of-4"
 
 # ------------------------------------------------------------------------------------------------
 # Message extraction
 
 STEMS = [
-    ("insufficient", r"^Insufficient "),
-    ("too-much", r"^Allocated too much"),
-    ("failed-take", r"^Failed to take "),
-    ("backward", r"^Offsets went backward"),
-    ("set-size", r"set_size was never called"),
+    # (key, regex on the string literal, required today)
+    ("insufficient", r"^Insufficient ", True),
+    ("too-much", r"^Allocated ", True),
+    ("failed-take", r"^Failed to take ", True),
+    ("backward", r"^Offsets went backward", True),
+    ("set-size", r"set_size was never called", True),
+    ("no-allocation", r"with no allocation", False),
+    ("didnt-allocate", r"^Didn't allocate", False),
+    ("didnt-use-up", r"^Didn't use up all allocated", False),
+    ("invalid-allocation", r"^Invalid .* allocation", False),
+    ("memory-offsets", r"^Unexpected memory offsets", False),
+    ("validate-empty", r"^validate_empty failed", False),
+    ("not-yet-allocated", r"not yet allocated", False),
 ]
+FILES = ("libwild/src/elf_writer.rs", "libwild/src/file_writer.rs", "libwild/src/verification.rs")
 # Number of distinct literals of the family in today's tree (a drop means messages were renamed).
-MIN_LITERALS = 20
+MIN_LITERALS = 28
 
 
 def fmt_to_regex(lit):
@@ -78,7 +88,7 @@ def extract_messages(repo):
     lits = {}
     found_stems = set()
     fn_fmt = {}
-    for fn in ("libwild/src/elf_writer.rs", "libwild/src/file_writer.rs"):
+    for fn in FILES:
         path = os.path.join(repo, fn)
         try:
             src = open(path).read()
@@ -86,17 +96,18 @@ def extract_messages(repo):
             raise Inconclusive(f"cannot read {path}")
         for m in re.finditer(r'"((?:[^"\\]|\\.)*)"', src, re.S):
             lit = re.sub(r"\\\n\s*", "", m.group(1))
-            for stem, rx in STEMS:
+            for stem, rx, _req in STEMS:
                 if re.search(rx, lit):
-                    # Cut at the first sentence end followed by a placeholder-only tail.
-                    core_text = lit.split(". {}")[0]
+                    # Cut at the first sentence end followed by a placeholder-only tail, and at an
+                    # embedded newline escape.
+                    core_text = lit.split(". {}")[0].split("\\n")[0]
                     lits[core_text] = stem
                     found_stems.add(stem)
         for name in ("insufficient_allocation", "excessive_allocation"):
             m = re.search(r"fn " + name + r"\b.*?error!\(\s*\"((?:[^\"\\]|\\.)*)\"", src, re.S)
             if m:
                 fn_fmt[name] = m.group(1).split(". {}")[0]
-    missing = [s for s, _ in STEMS if s not in found_stems]
+    missing = [s for s, _, req in STEMS if req and s not in found_stems]
     if missing or len(fn_fmt) != 2 or len(lits) < MIN_LITERALS:
         raise Inconclusive(f"allocation-mismatch message extraction lost coverage: missing stems {missing}, "
                            f"helper formats {sorted(fn_fmt)}, {len(lits)} literals (expected >= {MIN_LITERALS})")
@@ -176,8 +187,8 @@ _TLS = ["tls", "tls", "ext_tls", "cfn"]
 COMPATIBLE = {"call_plt": _FN, "got_load": _ANY, "lea_pcrel": ["fn", "data", "data", "ifunc", "ext_fn", "ext_data", "cfn"],
               "abs32": _ANY, "abs64": _ANY, "tls_gd": _TLS, "tls_gd_nop": _TLS, "tls_ld": ["tls", "cfn"], "tls_ie": _TLS,
               "tls_le": ["tls", "cfn"], "tls_desc": _TLS, "quad": _ANY, "quad_odd": _ANY, "quad_align1": _ANY,
-              "quad_relro": _ANY, "init_array": ["fn", "fn", "ifunc", "ext_fn", "cfn"], "pc32": ["fn", "data", "ifunc"],
-              "pc64": ["fn", "data", "ifunc"], "quad_addend": _ANY, "debug_quad": ["fn", "data", "tls"]}
+              "quad_relro": _ANY, "init_array": ["fn", "fn", "ifunc", "ext_fn", "cfn"], "pc32": ["fn", "data"],
+              "pc64": ["fn", "data"], "quad_addend": ["fn", "data", "data", "ext_fn", "ext_data", "weak_undef", "cfn"], "debug_quad": ["fn", "data", "tls"]}
 
 OPTIONS = [
     # (label, args for both linkers, wild-only args, kinds it applies to or None)
@@ -189,7 +200,8 @@ OPTIONS = [
     ("build-id=md5", ["--build-id=md5"], [], None),
     ("build-id=sha1", ["--build-id=sha1"], [], None),
     ("build-id=uuid", ["--build-id=uuid"], [], None),
-    ("build-id=hex", ["--build-id=0x1234abcdef"], [], None),
+    ("build-id=hex", ["--build-id=0x1234abcd"], [], None),
+    ("build-id=hex-odd", ["--build-id=0x1234abcdef"], [], None),
     ("build-id=none", ["--build-id=none"], [], None),
     ("eh-frame-hdr", ["--eh-frame-hdr"], [], None),
     ("no-eh-frame-hdr", ["--no-eh-frame-hdr"], [], None),
@@ -227,11 +239,11 @@ OPTIONS = [
 ]
 OPT_BY_LABEL = {o[0]: o for o in OPTIONS}
 EXCLUSIVE = [{"hash=sysv", "hash=gnu", "hash=both"},
-             {"build-id", "build-id=md5", "build-id=sha1", "build-id=uuid", "build-id=hex", "build-id=none"},
+             {"build-id", "build-id=md5", "build-id=sha1", "build-id=uuid", "build-id=hex", "build-id=hex-odd", "build-id=none"},
              {"eh-frame-hdr", "no-eh-frame-hdr"}, {"strip-all", "strip-debug", "retain-symbols"}, {"relax", "no-relax"},
              {"now", "lazy"}, {"Bsymbolic", "Bsymbolic-functions"}, {"gc", "no-gc"}, {"relro", "norelro"}]
 SECTION_CHANGING = {"relr", "hash=sysv", "hash=gnu", "hash=both", "build-id", "build-id=md5", "build-id=sha1",
-                    "build-id=uuid", "build-id=hex", "eh-frame-hdr", "no-eh-frame-hdr", "strip-all", "strip-debug",
+                    "build-id=uuid", "build-id=hex", "build-id=hex-odd", "eh-frame-hdr", "no-eh-frame-hdr", "strip-all", "strip-debug",
                     "retain-symbols", "no-relax", "got-plt-syms", "export-dynamic", "version-script", "dynamic-list",
                     "export-dynamic-symbol", "exclude-libs", "now", "Bsymbolic", "Bsymbolic-functions", "gc",
                     "nocopyreloc", "norelro", "soname", "rpath", "old-dtags", "nodelete", "no-string-merge"}
@@ -284,10 +296,12 @@ def normalise_opts(case):
             continue
         if any(label in grp and any(c in grp for c in chosen) for grp in EXCLUSIVE):
             continue
-        if kind == "reloc" and label in ("relr", "export-dynamic", "exclude-libs", "now", "lazy", "nocopyreloc",
+        if kind == "reloc" and label in ("eh-frame-hdr", "relr", "export-dynamic", "exclude-libs", "now", "lazy", "nocopyreloc",
                                          "norelro", "relro", "as-needed", "old-dtags", "nodelete", "undefined"):
             continue
         chosen.append(label)
+    if "gc" not in chosen and "no-gc" not in chosen:
+        chosen.append("no-gc")   # the two linkers' defaults differ; keep the generated sites alive
     return chosen
 
 
@@ -478,7 +492,7 @@ class Prog:
             else:
                 sec = f'    .section .data.s{idx},"aw",@progbits\n    .balign 8'
             self.data_lines[obj] += [sec, f"    .quad {name}{add}"]
-            if k == "quad_align1":
+            if k == "quad_align1" and (v // 2) % 2:
                 # keep following sections at odd addresses now and then
                 self.data_lines[obj] += [f'    .section .data.u{idx}b,"aw",@progbits', "    .byte 2"]
             self.resources.add({"ifunc": "irelative", "ext_fn": "dynrel", "ext_data": "dynrel",
@@ -521,8 +535,10 @@ class Prog:
             L = []
             if oi == 0:
                 L += ["    .globl _start", '    .section .text._start,"ax",@progbits', "    .type _start,@function", "_start:"]
-                for fi in c["start_calls"]:
-                    f = c["fns"][fi % len(c["fns"])]
+                skip = {fi % len(c["fns"]) for fi in c["start_calls"]}   # the listed functions stay unreferenced
+                for fi, f in enumerate(c["fns"]):
+                    if fi in skip:
+                        continue
                     if f["bind"] != "l" or f["obj"] % self.n_obj == 0:
                         L.append(f"    call {f['name']}@PLT")
                 L.append("    ret")
@@ -627,6 +643,8 @@ class C23(Check):
         p.render()
         if p.in_known_relr_domain():
             return SIG_RELR_PARITY
+        if "build-id=hex-odd" in p.opts:
+            return SIG_BUILD_ID
         return None
 
     # ---------------------------------------------------------------------------------------------
@@ -701,14 +719,20 @@ class C23(Check):
                 hit = m.group(0)
                 break
         panic = re.search(r"panicked at (libwild/src/(?:elf_writer|file_writer)\.rs):\d+:\d+:\s*\n?(.*)", w.err)
+        if panic and not re.search(r"mid > len|range (start|end) index|out of range for slice|index out of bounds|"
+                                   r"split_off|split_at|slice|`None` value|copy_from_slice", panic.group(2)):
+            panic = None  # a crash, but not a size-accounting one (not this property's business)
         if hit or panic:
             if hit:
                 stem = re.sub(r"\d+", "N", hit)
                 stem = re.sub(r"`[^`]*`", "`X`", stem)[:70]
-                sig = "alloc:" + stem
+                part = re.search(r"Part #\S+ \(section `([^`]*)`", w.err)
+                sig = "alloc:" + stem + (part.group(1) if part else "")
                 relr_msg = ".relr.dyn" in hit or ".rela.dyn" in hit
                 if p.in_known_relr_domain() and relr_msg:
                     sig = SIG_RELR_PARITY
+                if "build-id=hex-odd" in p.opts and part and "build-id" in part.group(1):
+                    sig = SIG_BUILD_ID
             else:
                 sig = f"alloc-panic:{panic.group(1)}:{re.sub(r'[0-9]+', 'N', panic.group(2))[:50]}"
             diag = tools.link("wild", ["--threads=2", *base, *wild_only, "-o", "w2.out"], cwd=d, timeout=90,
